@@ -24,7 +24,7 @@ class Wf:
     def __init__(self, K=5, D=4, extra_caps=None, extra_pool=(), prefix="s", with_scheduler_tables=True, labels=None):
         scripts = live.schema_scripts() + (live.scheduler_temp_ddl() if with_scheduler_tables else [])
         self.labels = list(labels) if labels is not None else ["a", "b", "d/", "d/x", "d0", "p", "q"]
-        pool = ["", "root", "file", "step", "st"] + self.labels + live.hash_json_pool() + list(extra_pool)
+        pool = ["", "root", "file", "step", "st", "p", "q", "d/", "d0"] + self.labels + live.hash_json_pool() + live.step_hash_json_pool() + list(extra_pool)
         self.ctx = make_ctx(scripts, pool, live.IGNORED_TABLES, live.like_case_sensitive())
         self.K, self.D = K, D
         caps = {
@@ -79,6 +79,7 @@ class Wf:
         pool = self.ctx.pool
         kinds = [pool.atom(k) for k in ("root", "file", "step", "st")]
         hashes = [pool.atom(h) for h in live.hash_json_pool()]
+        shashes = [pool.atom(h) for h in live.step_hash_json_pool()]
         labels = [pool.atom(s) for s in self.labels]
         for j, r in enumerate(self.nodes):
             cons.append(z3.Or(*[r.vals["kind"].v == k for k in kinds]))
@@ -92,9 +93,10 @@ class Wf:
             hr = self.t("step_hash").rows[j]
             cons.append(z3.Implies(bz(hr.present), bz(self.steps[j].present)))
         cons.append(bz(self.nodes[0].present))
-        for name, col in (("file", "hash"), ("step_hash", "hash")):
-            for r in self.t(name).rows:
-                cons.append(z3.Or(*[r.vals[col].v == h for h in hashes]))
+        for r in self.t("file").rows:
+            cons.append(z3.Or(*[r.vals["hash"].v == h for h in hashes]))
+        for r in self.t("step_hash").rows:
+            cons.append(z3.Or(*[r.vals["hash"].v == h for h in shashes]))
         for r in self.steps:
             cons.append(r.vals["env_overrides"].n == True)  # noqa: E712
             cons.append(z3.And(r.vals["duration"].v >= 0, r.vals["duration"].v <= 3, r.vals["_tail_time"].v >= 0, r.vals["_tail_time"].v <= 9))
